@@ -193,9 +193,16 @@ def plan_route(rec, seedt, tier):
     ml = math.sqrt(1 + alpha * alpha)
     lo_f = 2 * ml if order >= 0 else ml
     try:
-        r = SpectrumAnalyzer(x, fs, win="kaiser", psll=P, order=order, olap="default",
-                             scheduler=sched, Lmin=Lmin, Jdes=int(rng.choice([60, 150])),
-                             Kdes=int(rng.choice([1, 3])), backend=backend).compute()
+        akw = dict(win="kaiser", psll=P, order=order, olap="default", scheduler=sched, Lmin=Lmin,
+                   Jdes=int(rng.choice([60, 150])), Kdes=int(rng.choice([1, 3])), backend=backend)
+        if rng.random() < 0.4:
+            # the same analysis restricted to a band that cuts off the lowest plan bins
+            pf = np.asarray(SpectrumAnalyzer(x, fs, **akw).plan()["f"], dtype=float)
+            if len(pf) >= 8:
+                akw["band"] = (float(pf[int(rng.integers(1, len(pf) // 2))]), float(pf[-1]) * 1.01)
+                desc["band"] = list(akw["band"])
+                rec.count("plan_route_with_band")
+        r = SpectrumAnalyzer(x, fs, **akw).compute()
     except ValueError as e:
         rec.blocked(f"analysis rejected: {e}")
         return
